@@ -9,10 +9,7 @@ open Influx.Spec.C38
 
 /-- the model-level side condition of the series clause: when no file has a
     tombstone file, every key that has a block is listed in the index.
-    (It holds in every state reached by the C38 runs — compared on every run with
-    the real index — but is not yet proved an invariant of `Shard.delete`:
-    that needs "a key dropped from a file's index has all its points tombstoned",
-    a fact about indirectIndex.DeleteRange's window test.) -/
+    (An invariant of every run: Lemmas.BackupSeries.seriesAlong_all.) -/
 def Shard.seriesOK (s : Shard) : Bool :=
   !(s.files.all (fun f => f.tombM.isNone)) ||
   s.files.all (fun f => f.blocks.all (fun b => s.series.contains b.key))
